@@ -1350,11 +1350,7 @@ func (d *Data) NewVoxels(geom dvid.Geometry, img interface{}) (*Voxels, error) {
 		voxels.data = make([]uint8, requestSize)
 		// Voxels that no stored block covers must read as the background, as they do in
 		// BackgroundBlock() and GetBlocks().
-		if d.Background != 0 && bytesPerVoxel == 1 {
-			for i := range voxels.data {
-				voxels.data[i] = d.Background
-			}
-		}
+		fillBackground(voxels.data, d.backgroundVoxel())
 	} else {
 		switch t := img.(type) {
 		case image.Image:
